@@ -44,6 +44,13 @@ package rwriter
 //@   requires w != nil && r != nil && r.URL != nil
 //@   ghost optErr := false
 //@   at call getOpts#1: after ghost optErr := result1 != nil
+// the multihash that is validated (and then looked up) is the one the key names: the decoded key for a
+// multihash request, the CID's hash for a CID request
+//@   ghost cidHash := zero("multihash.Multihash")
+//@   at call Hash#1: after ghost cidHash := result
+//@   at call multihash.Decode#1: assert count("call:Hash") == 1 ==> arg0 == cidHash
+//@   at call multihash.Decode#1: assert count("call:Hash") == 0 ==> arg0 == b && count("call:NewCidV1") == 1
+//@   ensures-local result1 == nil ==> count("call:multihash.Decode") == 1 && result0.mh == mh && (count("call:Hash") == 1 ==> result0.mh == cidHash)
 // content negotiation looks at every Accept header value (a malformed one anywhere is a 400):
 //@   loop 1: exhaustive
 //@   at call apierror.New#1: assert arg1 == 400
